@@ -186,11 +186,13 @@ def reset_process_state() -> None:
     gc.collect()
 
 
-def _worker_loop(k: int, prop: str, tier: str, verif_seed: int, n_runs: int,
-                 counter, conn, deadline: float, n_samples: int) -> None:
+def _worker_loop(k: int, prop: str, tier: str, verif_seed: int,
+                 conn, n_samples: int) -> None:
     """One pinned, warmed-up process executing runs back to back.  State
     that could leak between runs is reset (reset_process_state); the
-    determinism self-test compares digests with fresh-interpreter runs."""
+    determinism self-test compares digests with fresh-interpreter runs.
+    Work is handed out by the batch driver over the pipe (no cross-process
+    lock: a worker killed on timeout must not be able to block the rest)."""
     from dst import props
     try:
         try:
@@ -199,13 +201,11 @@ def _worker_loop(k: int, prop: str, tier: str, verif_seed: int, n_runs: int,
         except (AttributeError, OSError):
             pass
         while True:
-            with counter.get_lock():
-                i = counter.value
-                counter.value += 1
-            if i >= n_runs or time.time() > deadline:
+            conn.send_bytes(pickle.dumps(('ready', -1, None)))
+            i = pickle.loads(conn.recv_bytes())
+            if i is None:
                 break
             seed = props.run_seed(verif_seed, prop, tier, i)
-            conn.send_bytes(pickle.dumps(('start', i, seed)))
             reset_process_state()
             try:
                 if prop in FORK_PER_RUN:
@@ -245,15 +245,14 @@ def run_batch(prop: str, tier: str, verif_seed: int, n_runs: int,
     gc.collect()
     gc.freeze()
     ctx = mp.get_context('fork')
-    counter = ctx.Value('i', 0)
     deadline = time.time() + wall_budget
     workers: dict = {}   # conn -> dict(proc, k, cur, since)
+    state = {'next': 0}
 
     def spawn(k: int) -> None:
-        a, b = ctx.Pipe(duplex=False)
+        a, b = ctx.Pipe(duplex=True)
         p = ctx.Process(target=_worker_loop, args=(
-            k, prop, tier, verif_seed, n_runs, counter, b, deadline,
-            n_samples))
+            k, prop, tier, verif_seed, b, n_samples))
         p.start()
         b.close()
         workers[a] = {'proc': p, 'k': k, 'cur': None, 'since': time.time()}
@@ -279,9 +278,21 @@ def run_batch(prop: str, tier: str, verif_seed: int, n_runs: int,
                                     'status_msg': 'worker process died',
                                     'violations': []})
                     w['cur'] = None
-            if kind == 'start':
-                w['cur'] = (i, payload)
-                w['since'] = now
+            if kind == 'ready':
+                i = state['next']
+                if i >= n_runs or now > deadline:
+                    try:
+                        c.send_bytes(pickle.dumps(None))
+                    except OSError:
+                        pass
+                else:
+                    state['next'] += 1
+                    w['cur'] = (i, props.run_seed(verif_seed, prop, tier, i))
+                    w['since'] = now
+                    try:
+                        c.send_bytes(pickle.dumps(i))
+                    except OSError:
+                        pass
             elif kind == 'done':
                 w['cur'] = None
                 w['since'] = now
